@@ -76,9 +76,12 @@ def run(chk):
     # a fully degenerate site: all 20 amino acids observed in one column (also 21 symbols, also with a gap) - the site still accepts
     # exactly the observed symbols
     from harness.gen import AA as _AA20
+    # gaps written '.' (IMGT style) or mixed '-' / '.': both are gap symbols of the alignment
+    alignments += [["CAS.F", "CASSF", "C.TSY"], ["AC.", "ADC", "A-C"], ["A.", "AC"]]
     alignments += [["C" + a + "F" for a in _AA20], ["C" + a + "F" for a in _AA20 + "X"] + ["C-F"], [a + "W" for a in _AA20[:19]] + ["-W"]]
     for seqs in alignments:
-        order = "".join(sorted(set("".join(seqs)) - {"-"}))
+        dotted_gaps = any("." in s_ for s_ in seqs)
+        order = "".join(sorted(set("".join(seqs)) - {"-", "."}))
         rx = core.call_real(lambda: util.seqs_to_regex(seqs, align=False))
         cons = core.call_real(lambda: util.seqs_to_consensus(seqs, align=False))
         plt.close("all")
@@ -93,9 +96,10 @@ def run(chk):
             if cm2[0] != "ok" or cm2[1][0] is not ax_l or (cm[0] == "ok" and not cm2[1][1].equals(cm[1])):
                 chk.violation("C19|seqlogos|given-axes", f"seqlogos(seqs, ax) does not draw on the given axes / returns another count matrix: {str(cm2)[:120]}", {"seqs": seqs})
             plt.close("all")
-        ops += [{"op": "seqs_to_regex", "order": order, "seqs": seqs}, {"op": "seqs_to_consensus", "order": order, "seqs": seqs},
-                {"op": "count_matrix", "order": order, "seqs": seqs}]
-        metas.append((seqs, order, rx, cons, cm))
+        mseqs = [s_.replace(".", "-") for s_ in seqs]        # (the model writes every gap '-')
+        ops += [{"op": "seqs_to_regex", "order": order, "seqs": mseqs}, {"op": "seqs_to_consensus", "order": order, "seqs": mseqs},
+                {"op": "count_matrix", "order": order, "seqs": mseqs}]
+        metas.append((mseqs, order, rx, cons, cm))
     ans = core.run_driver_parallel(ops)
     match_ops, match_meta = [], []
     for k, (seqs, order, rx, cons, cm) in enumerate(metas):
@@ -252,6 +256,11 @@ def run(chk):
         coord = (lambda: rng.randint(0, 3)) if grid == "nonneg" else ((lambda: rng.randint(-3, 3)) if grid == "signed" else (lambda: rng.randint(-4, 6) / 2))
         x = [coord() for _ in range(n)]
         y = [coord() for _ in range(n)]
+        if _ % 5 == 4:
+            # float data holding both signs of zero (np.round(-0.04, 1), -1.0 * 0.0): 0.0 and -0.0 are ONE coordinate
+            x = [0.0, -0.0, 0.0, 1.0, -0.0, 1.0] + [float(v) for v in x[:3]]
+            y = [-0.0, 0.0, 0.0, 1.0, -0.0, -0.0] + [float(v) for v in y[:3]]
+            n = len(x)
         fig, ax = plt.subplots()
         do_sort = rng.random() < 0.7
         dkw = {} if do_sort and rng.random() < 0.5 else {"sort": do_sort}
